@@ -323,4 +323,9 @@ def run(ctx, rep):
         rule_class(ctx, rep, names, idx)
     rule_delta(ctx, rep)
     rule_null(ctx, rep)
+    # "of the current document text ... after arbitrary edit histories": tokens are computed from the project's current
+    # sources, which are replaced wholesale on every change, and the adapter keeps no history of its own
+    from rules.c11 import rule_cache, rule_stateless
+    rule_cache(ctx, rep, rid="R-C15-current")
+    rule_stateless(ctx, rep, rid="R-C15-stateless")
     # R-C05-noop (column after a comment) is decided under C05
